@@ -78,7 +78,7 @@ func (w *world) faultSweep(op M) M {
 			runs = append(runs, []interface{}{k, mode, b2i(err != nil), b2i(p != ""), b2i(bytes.HasPrefix(cw.b, sw.accepted))})
 		}
 	}
-	faultRuns += len(runs)
+	faultRuns.Add(int64(len(runs)))
 	res["runs"] = runs
 	return res
 }
